@@ -636,6 +636,17 @@ def r06_10(prog, rep):
                 vs = [x for x in sides if x[0] == 'place' and counter_pred(body, x[1])]
                 if cs and vs and not (e[1] in ('Ge', 'Lt') and sides.index(vs[0]) != 0):
                     eq = (bl.idx, si['true'] if e[1] in ('Eq', 'Ge') else si['false'])
+        # `counter.cmp(&SIZE)` form: the Equal arm of the match on the Ordering
+        for sbb, si in arm_of_enum_switch(prog, body, adt='std::cmp::Ordering'):
+            cm = [body.blocks[c].term for c in origins(body, [si['place'][0]], through_calls=False).calls if body.blocks[c].term.cmethod == 'cmp']
+            if len(cm) != 1 or len(cm[0].args) != 2:
+                continue
+            sides = [deref_expr(body, expr_of(body, a)) for a in cm[0].args]
+            cs = [x for x in sides if x[0] == 'const' and ((x[2] or {}).get('promoted_def') or (x[2] or {}).get('def') or '').endswith(cname)]
+            vs = [x for x in sides if x[0] in ('place', 'ref') and counter_pred(body, x[1])]
+            tq = si['arms'].get('Equal')
+            if cs and vs and tq is not None and any(t2 != tq for n2, t2 in si['arms'].items() if n2 != 'Equal'):
+                eq = (sbb, tq)
         closes = [b for b in body.calls() if close_pred(b.term)]
         okc = eq is not None and bool(closes) and all(body.edge_dominates(eq, c.idx) for c in closes)
         rep.ob('R06.10', okc, key + 'unit-closed-when-full', '%s closed exactly when its counter reaches %s' % (what, cname) if okc else
